@@ -15,9 +15,6 @@ echo "--- demo without patch:"; go test -count=1 -run 'Seed|seed|Demo|C[0-9][0-9
 rm -f $PKG/zz_seed_demo_test.go
 echo "--- checks on /repo with patch:"
 cd /repo && git apply $SD/patch.diff || { echo "PATCH DOES NOT APPLY TO /repo"; exit 2; }
-for q in C01 C02 C03 C04 C05 C06 C08 C09 C10 C11 C12 C13 C14 C15 C16 C17 C18 C19 C20; do
-  out=$(/verif/bin/pprofcheck -property $q -no-evidence 2>&1); rc=$?
-  if [ $rc -ne 0 ]; then echo "$q FIRES:"; echo "$out" | grep "VIOLATION\|UNDECIDED" | grep -v "^VIOLATION property" | cut -c1-300 | head -4; fi
-done
+/verif/bin/pprofcheck -property all -no-evidence 2>&1 | grep "^ *VIOLATION C\|^ *UNDECIDED" | cut -c1-330 | head -12
 git -C /repo checkout -- . ; git -C /repo status --short | head -3
 echo "--- done"
